@@ -1,10 +1,11 @@
 import Ops.Core
 import Ops.Codec
+import Ops.Transforms
 /- Line-protocol driver of the executable model: one op per line in, one line out. -/
 open Draco
 
 def allOps : List (String × (List String → String)) :=
-  Ops.coreOps ++ Ops.codecOps
+  Ops.coreOps ++ Ops.codecOps ++ Ops.transformOps
 
 def dispatch (line : String) : String :=
   match (line.trimAscii.toString.splitOn " ").filter (· ≠ "") with
